@@ -85,13 +85,13 @@ def resolve(tree, path):
     return n
 
 
-def check_program(ctx, FST, seg, label, rnd, max_edits):
+def check_program(ctx, FST, seg, label, rnd, max_edits, allow_debug=False):
     from ..base import D, S, refparse, short
     base, _ = refparse(seg)
     if base is None:
         return
     import re as _re
-    if has_debug_fstring(base) or (_re.search(r'=\s*(![rsa])?(:[^{}]*)?\}', seg) and _re.search(r'''[fF][rR]?['"]|[rR][fF]['"]''', seg)):
+    if not allow_debug and (has_debug_fstring(base) or (_re.search(r'=\s*(![rsa])?(:[^{}]*)?\}', seg) and _re.search(r'''[fF][rR]?['"]|[rR][fF]['"]''', seg))):
         ctx.count('program_with_debug_fstring_skipped(CPython positions anomalous)')
         return
     try:
